@@ -169,6 +169,9 @@ pub open spec fn policy_failure(p: TrampolineRoutingPolicy) -> Seq<u8> {
 //    the only failure answered directly is the self-route-hint temporary_node_failure of the
 //    classification; every other Fail comes from the lifecycle through the listener
       (r is Fail && !final(g).via_listener) ==> r->failure_message@ == seq![0x20u8, 2u8]
+//@ ensures#the_listener_value_is_returned_unchanged [C02,C01,C06,C07]
+//    whatever the lifecycle sent to this call's listener is exactly the hook's answer
+      final(g).via_listener ==> Some(r) == final(g).listener_value
 //@ ensures#direct_continue_is_untouched [C13]
       (r is Continue && !final(g).via_listener) ==> continue_untouched(*req, r)
 //@ closure 0
